@@ -26,3 +26,8 @@ package imagemeta
 //@   props C01 C02
 //@   entry
 //@   requires r != nil
+
+//@ func DecodeJPEG
+//@   props C01 C02
+//@   entry
+//@   requires r != nil
